@@ -116,7 +116,7 @@ def _rand_value(rng, op, right=False):
 
 
 def _gen_boxes(rng, tier):
-    nrand = 6 if tier == "quick" else 400
+    nrand = 6 if tier == "quick" else 1500
     for op in BINOPS:
         for ka, kb in KIND_PAIRS:
             for x, y in _value_pairs(op, rng, nrand):
@@ -185,14 +185,16 @@ def _gen_fibers(rng, tier):
                 for shape in (None, 4):
                     yield _fib_case(op, 0, 7, a, s=s, shape=shape)
     # seeded random: larger leaf fibers, 2-level trees
-    nrand = 2500 if tier == "quick" else 60000
+    nrand = 2500 if tier == "quick" else 200000
     for i in range(nrand):
         dflt = rng.choice([0, 0, 0, 7])
         pool = (1, 2, -3, 7, 0, -1, -2, 3, 4) if dflt == 0 else (1, 2, -3, 7, 0, 3, 4, 14)
-        d = rng.choice([0, 0, 1, 1])
+        d = rng.choice([0, 0, 0, 1, 1, 1, 2])
         nn = rng.choice([3, 5, 8, 12] if tier == "quick" else [3, 5, 8, 12, 25, 40])
         if d == 1:
             nn = min(nn, 8)
+        if d == 2:
+            nn = min(nn, 5)
         a = H.gen_tree(rng, d + 1, nn, pool, dflt)
         if rng.random() < 0.75:
             op = FF_OPS[i % 4]
@@ -201,8 +203,8 @@ def _gen_fibers(rng, tier):
                 b = []
             if rng.random() < 0.08:
                 a = []
-            kind = "owned" if (d == 1 and rng.random() < 0.6) else "free"
-            if d == 1 and kind == "free" and (not a or not b):
+            kind = "owned" if (d >= 1 and rng.random() < 0.6) else "free"
+            if d == 2 or (d == 1 and kind == "free" and (not a or not b)):
                 kind = "owned"   # a free empty fiber cannot know that its payloads would be fibers
             yield _fib_case(op, d, dflt, a, b=b, kind=kind)
         elif d == 0:
@@ -211,7 +213,7 @@ def _gen_fibers(rng, tier):
             yield _fib_case(op, 0, dflt, a, s=rng.choice([0, 1, -1, 2, 5, -7, dflt]), shape=shape)
         else:
             op = rng.choice(["sadd", "radd", "smul", "rmul"])
-            yield _fib_case(op, 1, dflt, a, s=rng.choice([1, 2, -3]), kind="owned", shape2=[nn, nn])
+            yield _fib_case(op, d, dflt, a, s=rng.choice([1, 2, -3]), kind="owned", shape2=[nn] * (d + 1))
 
 
 def gen(seed, tier):
